@@ -85,7 +85,9 @@ def parseCMode (s : String) : CMode :=
 
 /-- factory table `k:spec,…` (callable id = 1000 + k) with spec
 `e<v>` existing atom · `f<a.b.c>` fresh flat container · `t<a>` fresh pair (fresh empty container, atom a) ·
-`r` raises.  An upper-case letter marks a factory the harness cannot instrument (its calls are not printed). -/
+`r[TVAR]` raises (TraitError / ValueError / AttributeError / RuntimeError; default RuntimeError) ·
+`y<TVAR><a.b>` raises when its call ordinal (number of earlier factory calls of the case) is even, else a fresh
+container `[a, b]`.  An upper-case letter marks a factory the harness cannot instrument (its calls are not printed). -/
 def factoryBase : Nat := 1000
 
 def parseDots (s : String) : List Nat :=
@@ -100,7 +102,10 @@ def factoryTable (s : String) : List (Nat × String) :=
 
 def mkFactory (s : String) : Id → Callback Id FRes :=
   let ents := factoryTable s
-  fun f _ _ =>
+  let excOf (l : String) : Exc :=
+    if l == "T" then .traitError else if l == "V" then .valueError else if l == "A" then .attributeError
+    else .runtimeError
+  fun f n _ =>
     match ents.find? (fun e => e.1 + factoryBase == f) with
     | none => .error .typeError
     | some (_, sp) =>
@@ -109,7 +114,10 @@ def mkFactory (s : String) : Id → Callback Id FRes :=
       if c == "e" then .ok (.existing (xs.headD 0))
       else if c == "f" then .ok (.fresh (xs.map .atom))
       else if c == "t" then .ok (.fresh [.inner [], .atom (xs.headD 0)] true)
-      else .error .runtimeError
+      else if c == "y" then
+        if n % 2 == 0 then .error (excOf ((sp.drop 1).take 1).toString)
+        else .ok (.fresh ((parseDots (sp.drop 2).toString).map .atom))
+      else .error (excOf ((sp.drop 1).take 1).toString)
 
 def mkEnv (pool handlers : List (String × String)) (validate : Nat → Callback Id Id)
     (post : Nat → Callback Id Unit) (factory : Id → Callback Id FRes) : Env :=
@@ -133,11 +141,13 @@ def parseOp (s : String) : Option Op :=
   | ["setq", v] => (nat? v).map .setq
   | ["rd", h, p] => (nat? h).map (.regDyn · (p == "1"))
   | ["ird", h] => (nat? h).map (.regDyn · false)
+  | ["ird", h, _] => (nat? h).map (.regDyn · false)      -- decorated method with a magic name: same registration
   | ["ud", h] => (nat? h).map .unregDyn
   | ["ra", h, p] => (nat? h).map (.regAny · (p == "1"))
   | ["ua", h] => (nat? h).map .unregAny
   | ["ro", h] => (nat? h).map .regObs
   | ["iro", h] => (nat? h).map .regObs
+  | ["iro", h, _] => (nat? h).map .regObs
   | ["uo", h] => (nat? h).map .unregObs
   | _ => none
 
@@ -383,7 +393,8 @@ def handleC10 (pf ff cf hf opsf : String) : String :=
       handler := mkHandlers (look (kvs hf) "H")
       veto := fun _ => false
       reraiseLegacy := false
-      reraiseObserve := false }
+      reraiseObserve := false
+      warnError := look P "W" == "1" }
   let silent := (factoryTable ftab).filterMap fun e =>
     if (e.2.take 1).toString != (e.2.take 1).toString.toLower then some e.1 else none
   match buildClasses E (fields ((cf.drop 2).toString) ";") { ctx := { alloc := N } },
